@@ -16,7 +16,8 @@ func steps(c *vlib.Case, p *Profile) int {
 
 func TestC02(t *testing.T) {
 	vlib.SetRule("C02", "TestC02", "generated histories (2-4 nodes, <=60 steps quick / <=150 thorough) of local writes, compactions, leaves, joins, gossip rounds and per-packet deliver/drop/duplicate/reorder/partition steps over real gossip nodes with per-node packet limits down to the minimum viable size; a third of the cases never forget a node; oracle after every step: authenticity against the owner's recorded write history, no loss/rollback up to the reported version, staleness only as permitted by the compaction point, own state untouched by received messages, versions monotone; non-trivial = a truncated delta AND one of relay-only learning, duplicate delivery, reordering, compaction after a delete")
-	p := &Profile{Prop: "C02", Oracles: map[string]bool{"C02": true}, AllowNoSweep: true, TinyPackets: true, MaxSteps: maxSteps(60, 150)}
+	p := &Profile{Prop: "C02", Oracles: map[string]bool{"C02": true}, AllowNoSweep: true, TinyPackets: true, MaxSteps: maxSteps(60, 150),
+		Weights: map[string]int{"compact": 6, "delete": 7}}
 	vlib.RunSync(t, "C02", func(c *vlib.Case) {
 		s := New(c, p)
 		n := steps(c, p)
@@ -34,7 +35,8 @@ func TestC02(t *testing.T) {
 
 func TestC14(t *testing.T) {
 	vlib.SetRule("C14", "TestC14", "same history generator as C02; oracle after every step: the fold of all watcher notifications received by a node (join before keys, upsert/delete edits, leave/unreachable/reachable flags, expired removes) equals its visible view of every remote node; non-trivial = a compaction after a delete occurred and some delta was truncated")
-	p := &Profile{Prop: "C14", Oracles: map[string]bool{"C14": true}, TinyPackets: true, MaxSteps: maxSteps(60, 150)}
+	p := &Profile{Prop: "C14", Oracles: map[string]bool{"C14": true}, TinyPackets: true, MaxSteps: maxSteps(60, 150),
+		Weights: map[string]int{"compact": 6, "delete": 7}}
 	vlib.RunSync(t, "C14", func(c *vlib.Case) {
 		s := New(c, p)
 		n := steps(c, p)
@@ -57,6 +59,27 @@ func TestC03(t *testing.T) {
 		for i := 0; i < n; i++ {
 			s.Step()
 		}
+		// a burst of writes that nobody has gossiped yet: the closure starts far behind
+		burst := c.Int("burst", 0, 40)
+		for i := 0; i < burst; i++ {
+			var writers []*Node
+			for _, nd := range s.nodes {
+				if !nd.crashed && !nd.left {
+					writers = append(writers, nd)
+				}
+			}
+			if len(writers) == 0 {
+				break
+			}
+			nd := writers[c.Pick("burstNode", len(writers))]
+			if c.Chance("burstDelete", 1, 5) {
+				nd.n.State.DeleteLocal(s.drawKey())
+			} else {
+				nd.n.State.UpsertLocal(s.drawKey()+c.OneOf("suffix", "", "1", "2", "3", "4"), vlib.Draw(c, genVal, "val"))
+			}
+			s.snapshotLocal(nd)
+		}
+		c.Stepf("burst of %d un-gossiped writes", burst)
 		if !s.liveConnected() {
 			c.Class("closure-skipped-live-set-disconnected")
 			return
